@@ -1,6 +1,6 @@
 """C07 -- conjugate computes the complex conjugate (structural clauses)."""
 from ..core import Ctx, Ob, PropSpec
-from ..rules import r2, extra, r7i, r4r, r3
+from ..rules import r2, extra, r7i, r4r, r3, r5
 
 
 def run(ctx: Ctx) -> list[Ob]:
@@ -16,6 +16,7 @@ def run(ctx: Ctx) -> list[Ob]:
     obs += r7i.rewiring_order(ctx, ['conjugate'])
     obs += r4r.operator_rule_shapes(ctx, {'CONJUGATION'})
     obs += r3.r3k(ctx)
+    obs += r5.r5g(ctx)
     return obs
 
 
@@ -30,8 +31,9 @@ SPEC = PropSpec(
         "passes product layers through and dispatches every other layer kind to a registry rule. R7i: every comprehension over <circuit>.layer_inputs(<layer>) that re-wires a copied layer in this operator is an order-preserving total map (no `if` filter, not concatenated, not sorted / reversed / made a set): product layers and sum weights are positional. R4r (symbolic shape interpretation of the operator rules, nothing executed): each conjugation layer rule, applied to abstract operand layers built by interpreting the symbolic layer constructors on symbolic sizes (every parameterisation: probs / logits, optional log-partition, arity 1..3), composes parameter nodes only with operands of the shapes the nodes were built for, hands the resulting layer parameters of exactly the shape its constructor validates (for all sizes, not only when two sizes coincide) and returns a layer with Ko output units."
         " R2d (every path): the definitions of each complex-capable parameter that reach the layer constructor of a conjugation rule (reaching definitions on the CFG) all pass through ConjugateParameter; a path that skips the wrapper under a test of a node's *kind* (isinstance) is a violation, under a dtype test no verdict. R2h: no function of the operator layer (symbolic/operators.py, functional.py) singles out TensorParameter leaves by isinstance without also looking through ReferenceParameter / deref() -- the leaves of every operator result are references, so a dtype / learnability inference over 'the tensor leaves' is vacuous for operator chains (conjugate(conjugate(c)), conjugate(c1 * c2))."
         " R3k: every constructor hyper-parameter of a concrete symbolic layer (everything but its params and *_factory alternatives) is a key of its config and round-trips through it -- Layer.copyref(), the copy every operator makes of a layer it does not transform, rebuilds the layer from config (a constant layer that loses log_space is read as linear by the next operator)."
+        ' R5g: every parameter operator whose forward contracts two or more parameter tensors with a dtype-strict operation (matmul, einsum, tensordot, @) casts them to a common dtype first (promote_types / result_type / .to): the parameter graph may mix real and complex tensors (a real permutation matrix and a conjugated complex weight), which the un-optimized graph evaluates with promoting operations, so a strict contraction introduced by an optimizer rewrite would make the circuit raise under optimize=True only.'
     ),
     not_decided="that torch.conj is a conjugation; involution and equality of integrals (they follow from the carried clauses, not checked numerically).",
     run=run,
-    floors={"R3k": 25, "R2h": 20, "R4r": 10, "R7i": 2, "R2c": 8, "R2d": 5},
+    floors={"R5g": 2, "R3k": 25, "R2h": 20, "R4r": 10, "R7i": 2, "R2c": 8, "R2d": 5},
 )
